@@ -15,6 +15,30 @@ fn polluting_texts() -> Vec<&'static str> {
         "module m; wire [7:0] a = b + c * (d - e) / f ** g; endmodule\n",
         "`define D(x,y) x+y\nmodule m; assign a = `D(1,2); endmodule\n",
         "library lib1 a.v;\n",
+        // an incomplete-mode parse stops inside an open region (before `end_keywords)
+        "`begin_keywords \"1364-2001\"\nmodule a; wire logic; endmodule\nmodule b; assign = 1; endmodule\n`end_keywords\n",
+        "module m; logic x; endmodule\n`begin_keywords \"1364-2001\"\nmodule n; reg y; endmodule\n",
+        "library lib1 a.v;\n`begin_keywords \"1364-1995\"\n",
+    ]
+}
+
+/// inputs whose result changes if one of the three thread-local cells (keyword-version stack, directive depth, memo table) is not reset:
+/// words that are reserved only in later standards, in identifier slots of the preprocessor grammar and of the SystemVerilog grammar;
+/// comments next to tokens (rejected while the directive depth is non-zero)
+fn sensitive_texts() -> Vec<&'static str> {
+    vec![
+        "`ifdef logic\nwire a;\n`else\nwire b;\n`endif\n",
+        "`ifndef priority\nwire a;\n`endif\n",
+        "`undef bit\nmodule m; endmodule\n",
+        "`pragma unique x\nmodule m; endmodule\n",
+        "`ifdef A\n`elsif do\nwire c;\n`endif\n",
+        "`define logic 1\nmodule m; endmodule\n",
+        "module m; wire logic; endmodule\n",
+        "module m; reg automatic; endmodule\n",
+        "module module; endmodule\n",
+        "module m; /* c */ wire /* d */ w; // e\nendmodule\n",
+        "module m; logic x; endmodule\n",
+        "library logic a.v;\n",
     ]
 }
 
@@ -31,6 +55,7 @@ fn build_pool(rng: &mut Rng, workdir: &str, root: &str, n: usize) -> Vec<gen_pp:
         if t.contains("self.svh") { c.files.push((format!("p{}/self.svh", i), Some(format!("`include \"p{}/self.svh\"\n", i)))); c.files[0].1 = Some(format!("`include \"p{}/self.svh\"\n", i)); }
         pool.push(c);
     }
+    for (i, t) in sensitive_texts().iter().enumerate() { pool.push(calls::text_case(&format!("s{}", i), t)); }
     for i in 0..n {
         pool.push(if i % 2 == 0 { gen_pp::gen_case(rng, 1000 + i, false) } else { let b = rng.pick(&corp); calls::text_case(&format!("k{}", i), &b.text) });
     }
@@ -52,8 +77,10 @@ pub fn main_c07(args: &[String]) {
     let mut hists = vec![];
     for _ in 0..nh {
         let len = rng.range(1, 8);
-        let mut h: Vec<Call> = (0..len).map(|_| { if rng.chance(1, 3) { let mut c = random_call(&mut rng, &pool[..11]); c.strip = false; c } else { random_call(&mut rng, &pool) } }).collect();
-        h.push(random_call(&mut rng, &pool));
+        let np = polluting_texts().len(); let ns = sensitive_texts().len();
+        let mut h: Vec<Call> = (0..len).map(|_| { if rng.chance(1, 3) { let mut c = random_call(&mut rng, &pool[..np]); c.strip = false; c } else { random_call(&mut rng, &pool) } }).collect();
+        // one probe in three is a state-sensitive input
+        h.push(if rng.chance(1, 3) { random_call(&mut rng, &pool[np..np + ns]) } else { random_call(&mut rng, &pool) });
         hists.push(h);
     }
     let hists = Arc::new(hists);
@@ -67,7 +94,7 @@ pub fn main_c07(args: &[String]) {
         let got = util::guarded(1024, move || { let mut outs = vec![]; for c in &h { outs.push(calls::run(c)); } outs.push(calls::run(&p2)); outs });
         (expect, got)
     });
-    let mut rep = Report::new("random histories of 1-8 calls over all nine entry points (generated preprocessor cases, corpus programs, state-polluting inputs: open begin_keywords regions, former directive-table leak, recursive macro, self-including file, rejected programs) followed by a probe run twice; the probe result on the used thread must equal the result on a fresh thread; non-trivial = history with >= 2 calls whose probe succeeds; distinct by history");
+    let mut rep = Report::new("random histories of 1-8 calls over all nine entry points (generated preprocessor cases, corpus programs, state-polluting inputs: open begin_keywords regions, former directive-table leak, recursive macro, self-including file, rejected programs, incomplete-mode parses that stop inside an open region) followed by a probe run twice (one probe in three is a state-sensitive input: a word reserved only by a later standard in an identifier slot of the preprocessor or SystemVerilog grammar, comments next to tokens); the probe result on the used thread must equal the result on a fresh thread; non-trivial = history with >= 2 calls whose probe succeeds; distinct by history");
     for (h, (expect, got)) in hists.iter().zip(results.into_iter()) {
         let key = format!("{:?}", h.iter().map(|c| (format!("{:?}", c.entry), c.case.top.clone(), c.incomplete, c.strip, c.ignore)).collect::<Vec<_>>());
         let ok = expect.starts_with("ok") || expect.starts_with("tree");
